@@ -171,7 +171,7 @@ func (reg ACMPolicyStatus) Fields() []Field {
 
 func (reg ACMPolicyStatus) KMID() uint8 {
 	// bits 0-3 (Key Manifest ID)
-	return uint8(reg & 0x7)
+	return uint8(reg & 0xf)
 }
 
 func (reg ACMPolicyStatus) BootPolicyM() bool {
@@ -231,7 +231,7 @@ func (reg ACMPolicyStatus) BackupAction() BackupAction {
 
 func (reg ACMPolicyStatus) TXTProfileSelection() uint8 {
 	// bits 20-24
-	return uint8(reg >> 20)
+	return uint8((reg >> 20) & 0x1f)
 }
 
 func (reg ACMPolicyStatus) MemoryScrubbingPolicy() MemoryScrubbingPolicy {
@@ -241,7 +241,7 @@ func (reg ACMPolicyStatus) MemoryScrubbingPolicy() MemoryScrubbingPolicy {
 
 func (reg ACMPolicyStatus) IBBDmaProtection() bool {
 	// bit 29
-	return (reg>>25)&0x1 != 0
+	return (reg>>29)&0x1 != 0
 }
 
 func (reg ACMPolicyStatus) SCRTMStatus() SCRTMStatus {
